@@ -14,7 +14,7 @@ from .closedform import canon, short, LOG, ARGS, key, diff_term, N as NUM
 from .series import taylor, SeriesError, rat_series, asymptotic, LZ, poly_series
 from .rules_c11 import INLINE_HELPERS, _is_sorting_network, ite_conds
 from .terms import subst_fold
-from .rules_c01 import leaves, fold, rename, same_value, poly_float, value_at, ACC
+from .rules_c01 import hoist_ites, leaves, fold, rename, same_value, poly_float, value_at, ACC
 from .domains import units, UnitFail
 
 PID = "C02"
@@ -238,36 +238,7 @@ def run(F, R, tier):
     # ---------------------------------------------------------------- R6 scale-free regime tests
     R.rule("R6", "the test that selects an equal-argument expansion compares a scale-free quantity (x/y with 1), so that it "
                  "bounds the relative expansion variable (y-x)/x for arguments of every size in [1e-6, 1e6]", 6)
-    for cname in ("Fa", "Fb", "Ixy", "FPZ", "FSZ", "FCWl"):
-        f = fn(F, cname)
-        pn = [p["name"] for p in f["params"]]
-        ls = lv.get(cname) or leaves(fold(F, f))
-        lv[cname] = ls
-        seen = set()
-        for fa, v_ in ls:
-            for c in true_conds(fa):
-                ms = {x_[1] for x_ in subterms(c) if isinstance(x_, tuple) and x_ and x_[0] == "sym" and x_[1] in pn}
-                if len(ms) < 2 or c in seen or c[0] in ("or", "and"):
-                    continue
-                seen.add(c)
-                ops = []
-                if c[0] == "call" and short(c[1]) in ("is_equal_rel", "is_equal"):
-                    ops = list(c[2][:2])
-                elif c[0] == "cmp" and c[2][0] == "call" and short(c[2][1]) == "abs":
-                    ops = [c[2][2][0]]
-                elif c[0] == "cmp":
-                    continue             # ordering tests (x < y) are scale-free
-                else:
-                    continue
-                try:
-                    k_ = SYM("__k")
-                    inv = all((canon(subst_sym(o, {p_: ("*", k_, SYM(p_)) for p_ in pn})) - canon(o)).is_zero() for o in ops)
-                except NotPolynomial:
-                    inv = False
-                R.check("R6", inv, "%s: %s is invariant under a common rescaling of its arguments" % (cname, show(c)[:60]), F.loc(f),
-                        "%s selects its equal-argument branch by %s, an absolute comparison: for small arguments two unequal "
-                        "values count as equal and the expansion around y = x is used outside its range" % (cname, show(c)[:80]),
-                        key="R6|%s|%s" % (cname, show(c)[:60]))
+    scale_free_guards(F, R, "R6", ("Fa", "Fb", "Ixy", "FPZ", "FSZ", "FCWl", "Phi_over_lambda_2"), lv)
 
     # ---------------------------------------------------------------- R5 zero arguments
     R.rule("R5", "a zero argument returns the documented limit 0 (is_zero / == 0 branch in front of every division by it)", 7)
@@ -282,6 +253,48 @@ def run(F, R, tier):
         R.check("R5", ok, "%s: %d zero-argument regime(s) return 0" % (cname, len(zero)), F.loc(f),
                 "%s: zero-argument regime missing or not returning 0: %s" % (cname, [show(v_)[:40] for fa, v_ in zero]),
                 key="R5|" + cname)
+
+
+def scale_free_guards(F, R, rid, names, lv):
+    """shared by C02-R6 and C11-R6s"""
+    for cname in names:
+        f = fn(F, cname)
+        pn = [p["name"] for p in f["params"]]
+        ls = lv.get(cname) or leaves(hoist_ites(fold(F, f)))
+        lv[cname] = ls
+        seen = set()
+        for fa, v_ in ls:
+            for c in true_conds(fa):
+                ms = {x_[1] for x_ in subterms(c) if isinstance(x_, tuple) and x_ and x_[0] == "sym" and x_[1] in pn}
+                if len(ms) < 2 or c in seen or c[0] in ("or", "and"):
+                    continue
+                seen.add(c)
+                ops = []
+                if c[0] == "call" and short(c[1]) in ("is_equal_rel", "is_equal"):
+                    ops = list(c[2][:2])
+                elif c[0] == "call" and short(c[1]) == "is_zero" and len(c[2]) >= 1:
+                    ops = [c[2][0]]           # |X| < eps with a pure number eps: X must be scale free
+                elif c[0] == "cmp" and c[2][0] == "call" and short(c[2][1]) == "abs":
+                    ops = [c[2][2][0]]
+                elif c[0] == "cmp":
+                    continue             # ordering tests (x < y) are scale-free
+                else:
+                    continue
+                try:
+                    k_ = SYM("__k")
+
+                    def same_scaled(o):
+                        """o(k p) == o(p); an opaque call is invariant when each of its arguments is"""
+                        if o[0] == "call" and not (len(o[2]) == 1 and short(o[1]) in ("abs", "sqrt", "log")) and short(o[1]) not in ("pow",):
+                            return all(same_scaled(a_) for a_ in o[2])
+                        return (canon(subst_sym(o, {p_: ("*", k_, SYM(p_)) for p_ in pn})) - canon(o)).is_zero()
+                    inv = all(same_scaled(o) for o in ops)
+                except NotPolynomial:
+                    inv = False
+                R.check(rid, inv, "%s: %s is invariant under a common rescaling of its arguments" % (cname, show(c)[:60]), F.loc(f),
+                        "%s selects its equal-argument branch by %s, an absolute comparison: for small arguments two unequal "
+                        "values count as equal and the expansion around y = x is used outside its range" % (cname, show(c)[:80]),
+                        key=rid + "|%s|%s" % (cname, show(c)[:60]))
 
 
 def _is_neg_test(F, cond, use):
